@@ -1190,6 +1190,12 @@ def main(argv):
     if "--tier" in argv:
         tier = argv[argv.index("--tier") + 1]
     seed = int(os.environ.get("VERIF_SEED", "1"))
+    if "--replay" not in argv:
+        # replay files of earlier runs of this property would be mistaken for findings of this run
+        import glob
+        for old in glob.glob(os.path.join(WORK, "replay", pid + "-*.json")):
+            try: os.remove(old)
+            except OSError: pass
     try:
         if "--replay" in argv:
             return replay(pid, argv[argv.index("--replay") + 1])
